@@ -14,7 +14,7 @@ PROP = "C10"
 META = {
     "level": "exploration",
     "claim": "Held on the executed runs: with temporary / disconnected / expired-token / out-of-space errors injected at engine provider API calls (random rate 2-15% per call, and complete single-fault enumeration over every call index x kind of short histories) no exception escapes a service step except through the loop's own handlers, every temporary, disconnected and out-of-space fault is followed by a notification of the matching type before the next fault, all notifications raised are delivered in order, and after the faults stop the family oracle holds with no user content lost; a locked path and an invalid name are reported, do not stop other files from synchronising within the step cap, and synchronise once lifted / renamed.",
-    "note": "Trusted: faults are injected at MockProvider._api (before the provider mutates anything) in engine context only; disconnect/token faults also drop the provider's connection as DEVELOP.md requires of real providers. Fault inside the filtered-events walk after the cursor advanced is finding K5 (flavours with event filtering).",
+    "note": "Trusted: faults are injected at MockProvider._api (before the provider mutates anything) in engine context only, plus, in rate plans, downloads that break off with a temporary error after half of the bytes reached the engine's handle (15 % of engine downloads; decided by the final content oracle, no notification clause); disconnect/token faults also drop the provider's connection as DEVELOP.md requires of real providers. Fault inside the filtered-events walk after the cursor advanced is finding K5 (flavours with event filtering).",
     "technique": "runtime monitoring with fault injection at the provider API seam: step-exception monitor, fault->notification matching, family oracle after faults stop",
     "plan": {"quick": {"shards": 16, "timeout": 900, "cases": 5000, "enum": 64, "perm": 600},
              "thorough": {"shards": 32, "timeout": 3400, "cases": 150000, "enum": 1500, "perm": 20000}},
@@ -52,6 +52,8 @@ class FaultPlan(Monitor):
         self.active = True
         self.marks = []             # (kind, side, index into sim.raised at injection, stack names)
         self.api_total = [0, 0]
+        self.trng = random.Random("torn:%r" % (rate,))
+        self.torn_count = 0
 
     def on_sim(self, sim, case):
         self.sim = sim
@@ -60,6 +62,17 @@ class FaultPlan(Monitor):
         for t in sim.taps:
             t.api_calls = 0
             t.fault_plan = self.plan
+            if self.single is None and self.rate:
+                t.torn = self.torn
+
+    def torn(self, oid, path):
+        """rate plans only: one engine download in seven delivers half of the bytes and then fails with a temporary error"""
+        if not self.active:
+            return False
+        if self.trng.random() < 0.15:
+            self.torn_count += 1
+            return True
+        return False
 
     def plan(self, tap, idx, args):
         if not self.active:
@@ -199,6 +212,7 @@ def run(case, acc=None, count=True, rate=None, single=None):
             acc.evaluations += 1
             acc.count("engine_steps", sim.steps)
             acc.count("faults_injected", len(fp.marks))
+            acc.count("downloads_broken_off_half_way", fp.torn_count)
             acc.count("engine_api_calls", sum(fp.api_total))
             acc.count("notifications_raised", len(sim.raised))
             acc.count("reauth_calls", len(sim.auth_calls))
